@@ -270,7 +270,9 @@ def bicgstab(A: LinearOperator, B: torch.Tensor,
     converge = False
     best_resid = rk.norm(dim=-2).max()
     best_xk = xk
+    done = None
     for k in range(1, max_niter + 1):
+        xk_prev, rk_prev = xk, rk
         rho_knew = _dot(r0hat, rk)
         omega_denom = _safedenom(omega_k, eps)
         beta = rho_knew / _safedenom(rho_k, eps) * (alpha / omega_denom)
@@ -293,9 +295,18 @@ def bicgstab(A: LinearOperator, B: torch.Tensor,
         else:
             rk = s - omega_k * t
 
+        # the columns that have already converged only take the steps that reduce
+        # their residual: their recurrences break down (0 / 0) when they are
+        # iterated further while other columns go on
+        if done is not None:
+            worse = done & ~(rk.norm(dim=-2, keepdim=True) < resid_norm)
+            xk = torch.where(worse, xk_prev, xk)
+            rk = torch.where(worse, rk_prev, rk)
+
         # calculate the residual
         resid = rk
         resid_norm = resid.norm(dim=-2, keepdim=True)
+        done = resid_norm < stop_matrix
 
         # save the best results
         max_resid_norm = resid_norm.max().item()
